@@ -303,7 +303,22 @@ def check(repo, ctx, index, purity):
             ok = bool(c.args) and isinstance(c.args[0], ast.Name) and c.args[0].id == tname and not rebound
             ctx.check(ok, 'R6.2', SOLVER, 'DESolver._getdXdt', c, 'time argument is forwarded unchanged to the model callback',
                       'time passed to the model callback is not the time the iterator supplied')
-    # R6.3 purity
+    # R6.4 every getdXdt wrapper between the iterator and a model forwards the stage time unchanged
+    n64 = 0
+    for p_, q_, f_ in repo.all_functions():
+        if not q_.endswith('.getdXdt') or len(U.params(f_)) < 3:
+            continue
+        tname = U.params(f_)[1]
+        rebound = any(tname in U.target_names(t) for s_ in ast.walk(f_) if isinstance(s_, (ast.Assign, ast.AugAssign, ast.For)) for t in ([s_.target] if isinstance(s_, ast.For) else U.assign_targets(s_)))
+        for c in U.calls(f_):
+            if U.call_attr(c) in ('getdXdt', '_getdXdt', '_calculateDependentTerms', '_getFluxes', 'coupledXdt') and isinstance(c.func, ast.Attribute):
+                n64 += 1
+                ok = bool(c.args) and isinstance(c.args[0], ast.Name) and c.args[0].id == tname and not rebound
+                ctx.check(ok, 'R6.4', p_, q_, c, f'stage time {tname} is forwarded unchanged to {U.call_name(c)}',
+                          f'{U.call_name(c)} is not given the stage time the iterator supplied: a time-dependent right-hand side is evaluated at the wrong time')
+    ctx.floor('R6.4', n64, 4)
+    # R6.3 purity (callables given to an iterator are arbitrary programs: what they return may alias what they got)
+    purity.opaque_params_alias = True
     for q, f in its:
         pidx = 2
         sites, _ = purity.analyse(ITER, q, f, pidx)
@@ -319,3 +334,4 @@ def check(repo, ctx, index, purity):
                 ctx.violation('R6.3', s.path, s.qual, s.node, f'_updateX may modify its x argument in place ({s.kind})')
         else:
             ctx.ok('R6.3', SOLVER, 'DESolver._updateX', upd, 'no in-place write through an alias of x', construct='DESolver._updateX(x)')
+    purity.opaque_params_alias = False
